@@ -8,10 +8,12 @@
      - checks on the first value of each schema that Enc is injective over all
        menu values of that schema (EncInjective; design-level lemma).
    Menus: "large" (every parameter combination, several values each; short
-   schemas) and "small" (few field types; longer schemas, more interaction).     *)
+   schemas), "small" (few field types; longer schemas, more interaction) and
+   "times" (time fields with / without the utc / generalized override, explicit and
+   implicit tags x instants around both ends of the UTCTime range x zone offsets). *)
 EXTENDS ASN1Marshal
 
-CONSTANTS MENUS, S_FIELDS, L_FIELDS
+CONSTANTS MENUS, S_FIELDS, L_FIELDS, T_FIELDS
 
 VARIABLES menu, fs        \* fs: sequence of <<type, value>>
 vars == <<menu, fs>>
@@ -82,8 +84,26 @@ SmallMenu == {
   <<T("seqof", [Opt(P) EXCEPT !.omit = TRUE], <<I(P)>>), {<<>>, <<<<1, <<5>>>>>>}>>,
   <<[Inner EXCEPT !.p = Opt(P)], {<<<<0, <<>>>>, FALSE>>, <<<<1, <<5>>>>, TRUE>>}>>
 }
-Menu == IF menu = "small" THEN SmallMenu ELSE LargeMenu
-MaxF == IF menu = "small" THEN S_FIELDS ELSE L_FIELDS
+(* "times": instants around both ends of the UTCTime range x zone offsets.  For each boundary
+   B (1950-01-01 00:00:00, 2050-01-01 00:00:00), each d in Deltas and each offset: the time whose
+   LOCAL fields are B + d, and the time whose UTC fields are B + d (local = B + d + offset). *)
+Deltas  == {-43200, -3600, -1, 0, 1, 3600, 43200}
+Offsets == {-43200, -18000, -1800, 0, 1800, 18000, 50400}       \* -12:00 -05:00 -00:30 Z +00:30 +05:00 +14:00
+LocalAt(yb, rel, off) ==        \* local fields = Jan 1 of yb, 00:00:00, plus rel seconds (|rel| < 3 days)
+  LET day == IF rel >= 0 THEN rel \div 86400 ELSE -((86399 - rel) \div 86400)
+      sod == rel - (day * 86400)
+      ymd == IF day >= 0 THEN <<yb, 1, 1 + day>> ELSE <<yb - 1, 12, 32 + day>>
+  IN <<ymd[1], ymd[2], ymd[3], sod \div 3600, (sod % 3600) \div 60, sod % 60, off>>
+BoundaryTimes == {LocalAt(yb, dl, off) : yb \in {1950, 2050}, dl \in Deltas, off \in Offsets}
+                 \cup {LocalAt(yb, dl + off, off) : yb \in {1950, 2050}, dl \in Deltas, off \in Offsets}
+TimesMenu == {
+  <<T("time", P, <<>>), BoundaryTimes>>, <<T("time", Tt(P, "generalized"), <<>>), BoundaryTimes>>,
+  <<T("time", Tt(P, "utc"), <<>>), BoundaryTimes>>, <<T("time", Expl(P, 11), <<>>), BoundaryTimes>>,
+  \* under an implicit tag the decoder cannot tell the two time types apart: UTCTime range only
+  <<T("time", Tag(P, 11), <<>>), {v \in BoundaryTimes : InUTCRange(v)}>>
+}
+Menu == IF menu = "small" THEN SmallMenu ELSE IF menu = "times" THEN TimesMenu ELSE LargeMenu
+MaxF == IF menu = "small" THEN S_FIELDS ELSE IF menu = "times" THEN T_FIELDS ELSE L_FIELDS
 
 Init == menu \in MENUS /\ fs = <<>>
 Next == /\ UNCHANGED menu
